@@ -67,7 +67,7 @@ def write_0_0_39(ref, L, path, op):
         if op['fmt'] == 'json':
             json.dump(doc, f, indent=2)
         else:
-            yaml.safe_dump(doc, f, sort_keys=False, allow_unicode=True)
+            yaml.safe_dump(doc, f, sort_keys=False, allow_unicode=False)
 
 
 def write_scad(ref, L, path, op):
